@@ -185,7 +185,7 @@ theorem stmt_frame (call : CallT) (hcall : ∀ m args kw w, OutFr w (call m args
     · refine withR_fr _ _ _ fun _ => ?_
       split
       · trivial
-      · exact afterSend_fr _ _ _ (setProp_fr _ _) fun _ => Fr.refl _
+      · exact afterCall_fr _ _ (hcall _ _ _ _)
     · trivial
   | .delattrSelf _, st => by rw [Stmt.exec]; trivial
   | .listAssign l le, st => by
@@ -312,5 +312,17 @@ theorem run_frameX (call : CallT) (hcall : ∀ m args kw w, OutFr w (call m args
   cases r <;> exact h
 
 theorem noCall_frame : ∀ m args kw w, OutFr w (noCall m args kw w) := fun _ _ _ _ => trivial
+
+theorem propOutcome_frame (w : FW) (r : Fail.St × Option Err) (h : Fr w.s r.1) : OutFr w (propOutcome w r) := by
+  unfold propOutcome; split <;> exact h
+
+theorem propCall_frame : ∀ m args kw w, OutFr w (propCall m args kw w) := by
+  intro m args kw w
+  unfold propCall
+  split
+  · split
+    · exact propOutcome_frame _ _ (setProp_fr _ _)
+    · trivial
+  · trivial
 
 end SqlObjVerif.PyFail
